@@ -147,6 +147,11 @@ func runC13(c *fw.Ctx) {
 		if !mutate(1+r.Intn(8), true) {
 			return
 		}
+		if w0 := t.Weight(); w0 > 0 && r.Intn(6) == 0 { // a block proof is read while the batch is still uncommitted
+			c.Tracef("GetBlockProof on the uncommitted batch")
+			_, _, _ = t.GetBlockProof(1 + uint64(r.Intn(int(w0))))
+			c.Count("proofs_read_on_the_uncommitted_batch", 1)
+		}
 		if r.Intn(4) == 0 { // a garbage-collection pass while the batch is still uncommitted (it has nothing to do yet)
 			c.Tracef("gc (batch not committed yet)")
 			_ = t.DeleteNodes()
@@ -323,7 +328,7 @@ func init() {
 		ID:    "C13",
 		Level: "exploration",
 		Rule: "each case: build and commit a checkpoint state at a collapse level 0..5 (1 in 12 with an empty checkpoint; optionally one GC pass), SaveRoot, then 1..8 changes (new keys, changed values, unchanged re-writes, delete-and-re-add of identical content, deletes), " +
-			"commit at the same level (one batch in six from a SaveRoot checkpoint is never committed: the block is abandoned and rolled back as it is; one batch in twelve on a small trie deletes every entry; one committed batch in eight is followed by further changes that are never committed; a quarter of the batches see a garbage-collection pass while still uncommitted), optionally one GC pass, optionally a second Commit with nothing to write (possibly after a rejected delete of an absent key), then Rollback() or RollbackTrie (half of the RollbackTrie histories never call SaveRoot - the checkpoint is what the caller noted -; with a hash node, or with a CopyRoot(level) copy taken at the checkpoint). Oracle: Root()/Weight() equal the checkpoint's; the full observational check (every block's owner, value, verifying proof; every canonical node present) passes on the live trie and on a trie reopened " +
+			"commit at the same level (one batch in six from a SaveRoot checkpoint is never committed: the block is abandoned and rolled back as it is; one batch in twelve on a small trie deletes every entry; one committed batch in eight is followed by further changes that are never committed; a quarter of the batches see a garbage-collection pass and a sixth a block-proof read while still uncommitted), optionally one GC pass, optionally a second Commit with nothing to write (possibly after a rejected delete of an absent key), then Rollback() or RollbackTrie (half of the RollbackTrie histories never call SaveRoot - the checkpoint is what the caller noted -; with a hash node, or with a CopyRoot(level) copy taken at the checkpoint). Oracle: Root()/Weight() equal the checkpoint's; the full observational check (every block's owner, value, verifying proof; every canonical node present) passes on the live trie and on a trie reopened " +
 			"from the checkpoint root; with S0/S1/S2 the storage key sets at checkpoint / after the commit / after rollback, (S1 \\ S0) ∩ S2 is empty; a quarter of the quick cases and all thorough cases add two GC passes after the rollback and repeat the checks; a third of the histories then apply the same batch again, commit and roll back a second time (nothing of either commit may remain); then the history continues from the rolled-back trie (new changes, commit, full check, reopen), and half of the histories run a second checkpoint/commit/rollback cycle. distinct non-trivial = distinct traces",
 		Cases: func(tier string) int {
 			if tier == "thorough" {
@@ -333,7 +338,7 @@ func init() {
 		},
 		Run: runC13,
 		Floors: map[string]int64{"rollbacks": 20000, "rollback_via:Rollback": 8000, "rollback_via:RollbackTrie": 8000, "gc_between_commit_and_rollback": 8000, "change:unchanged-rewrite": 3000, "change:del-readd-identical": 3000,
-			"change:new": 20000, "change:deleted": 5000, "post_rollback_gc_checks": 4000, "commits_after_rollback": 10000, "retried_batches_rolled_back": 4000, "rollbacks_to_a_copied_root": 3000, "empty_commits_before_rollback": 4000, "abandoned_batches_rolled_back": 2500, "gc_passes_on_the_uncommitted_batch": 5000, "batches_that_empty_the_trie": 800, "uncommitted_changes_on_top_of_the_committed_batch": 2000, "checkpoints_without_SaveRoot": 4000},
+			"change:new": 20000, "change:deleted": 5000, "post_rollback_gc_checks": 4000, "commits_after_rollback": 10000, "retried_batches_rolled_back": 4000, "rollbacks_to_a_copied_root": 3000, "empty_commits_before_rollback": 4000, "abandoned_batches_rolled_back": 2500, "gc_passes_on_the_uncommitted_batch": 5000, "batches_that_empty_the_trie": 800, "proofs_read_on_the_uncommitted_batch": 3000, "uncommitted_changes_on_top_of_the_committed_batch": 2000, "checkpoints_without_SaveRoot": 4000},
 		Assumptions: []string{"at most one GC pass between the commit and the rollback (the property's domain)"},
 	})
 }
